@@ -88,8 +88,7 @@ def PathSpec.step (spec : PathSpec) (st : PSt) (e : Event) (_upd : Bool) : PSt Ã
   | .simple _, .end_ _ => ({ st with stack := st.stack.tail }, false)
   | .simple _, _ => (st, false)
 
-def mkMT (spec : PathSpec) (body : List BItem) (buffered once recursive : Bool) : MT PSt :=
-  { step := spec.step, st := {}, body := body, once := once, recursive := recursive,
-    buffered := buffered }
+def mkMT (spec : PathSpec) (body : List BItem) (h : Hints) : MT PSt :=
+  MT.ofHints spec.step {} body h
 
 end Genshi.Match
